@@ -76,7 +76,7 @@ def body(ctx):
             return out
         hx = lambda vals: vf.hexrow(vf.pack_lanes(vals, nb))
         # arithmetic: moderate moduli (no intermediate overflow/underflow), exactly representable grids included
-        ar = grid(ctx, bits, 2.0 ** 20, ctx.q(150, 5000))
+        ar = grid(ctx, bits, 2.0 ** 20, ctx.q(150, 30000))
         gi = [(fpgen.f2b(float(a), bits), fpgen.f2b(float(b), bits)) for a in range(-4, 5) for b in range(-4, 5)]     # Gaussian integers
         ar += gi
         br = list(ar)
@@ -102,7 +102,7 @@ def body(ctx):
         # tabulated functions
         for fn in TAB1 + TABR:
             mm = 20.0 if fn in ("tan", "tanh") else (60.0 if fn in ("exp", "expm1", "sin", "cos", "sinh", "cosh") else 2.0 ** 40)
-            pts = grid(ctx, bits, mm, ctx.q(120, 4000))
+            pts = grid(ctx, bits, mm, ctx.q(120, 20000))
             if fn in ("tan", "tanh", "exp", "expm1", "sin", "cos", "sinh", "cosh"):
                 pts = [p for p in pts if abs(fpgen.b2f(p[0], bits)) <= mm and abs(fpgen.b2f(p[1], bits)) <= mm]
             if fn in ("tan", "tanh"):
@@ -119,13 +119,13 @@ def body(ctx):
                 plan.append("%s %s %s 0 %s %s - -" % ("cxr" if fn in TABR else "cx1", fn, t, hx([p[0] for p in ch]), hx([p[1] for p in ch])))
                 meta[len(plan)] = (fn, [("c:" + fn, p[0], p[1]) for p in ch], bits)
                 req += [(bits, "c:" + fn, p[0], p[1]) for p in ch]
-        pts = grid(ctx, bits, 2.0 ** 10, ctx.q(100, 3000))
+        pts = grid(ctx, bits, 2.0 ** 10, ctx.q(100, 15000))
         ys = [fpgen.f2b(rng.choice((0.5, 2.0, 3.0, -1.0, 1.5, -2.5, 0.0, 1.0, rng.uniform(-4, 4))), bits) for _ in pts]
         for ch, yc in zip(rows_of(pts), rows_of(ys)):
             plan.append("cxp pow %s 0 %s %s %s -" % (t, hx([p[0] for p in ch]), hx([p[1] for p in ch]), hx(yc)))
             meta[len(plan)] = ("pow", [("c:pow", p[0], p[1], y) for p, y in zip(ch, yc)], bits)
             req += [(bits, "c:pow", p[0], p[1], y) for p, y in zip(ch, yc)]
-        pol = [(fpgen.f2b(math.exp(rng.uniform(-10, 10)), bits), fpgen.f2b(rng.uniform(-7, 7), bits)) for _ in range(ctx.q(100, 3000))]
+        pol = [(fpgen.f2b(math.exp(rng.uniform(-10, 10)), bits), fpgen.f2b(rng.uniform(-7, 7), bits)) for _ in range(ctx.q(100, 15000))]
         for ch in rows_of(pol):
             plan.append("cxq polar %s 0 %s %s - -" % (t, hx([p[0] for p in ch]), hx([p[1] for p in ch])))
             meta[len(plan)] = ("polar", [("c:polar", p[0], p[1]) for p in ch], bits)
